@@ -164,6 +164,10 @@ class _BoolReturns(ast.NodeTransformer):
         v = node.value
         if v is None or isinstance(v, ast.Constant):
             return node
+        if isinstance(v, ast.IfExp):  # return a if c else b  ==  if c: return a / else: return b
+            return ast.If(test=self.visit(v.test), body=[self.visit_Return(ast.Return(value=v.body))], orelse=[self.visit_Return(ast.Return(value=v.orelse))])
+        if isinstance(v, ast.Call) and dotted(v.func) == "bool" and len(v.args) == 1 and not v.keywords:
+            v = v.args[0]
         test = self.visit(v)
         return ast.If(test=test, body=[ast.Return(value=ast.Constant(value=True))], orelse=[ast.Return(value=ast.Constant(value=False))])
 
@@ -308,6 +312,51 @@ def none_proving(atom: ast.AST, label: str) -> str | None:
 
 # ---------------------------------------------------------------------
 # misc AST shapes
+
+
+def split_ifexp(e: ast.AST | None, conds: tuple = ()) -> list[tuple[ast.AST | None, tuple]]:
+    """``a if c else b`` -> [(a, ((c, "T"),)), (b, ((c, "F"),))] (nested, `not c` folded into the label); anything
+    else -> [(e, ())].  The conditions are single atoms or whole and/or expressions (callers that need atoms use
+    ``cond_atoms``)."""
+    if isinstance(e, ast.IfExp):
+        t_, n = strip_not(e.test)
+        lt, lf = ("T", "F") if n % 2 == 0 else ("F", "T")
+        return split_ifexp(e.body, conds + ((t_, lt),)) + split_ifexp(e.orelse, conds + ((t_, lf),))
+    return [(e, conds)]
+
+
+def cond_atoms(test: ast.AST, label: str) -> list[tuple[ast.AST, str]]:
+    """atoms whose edge is certainly taken when `test` evaluates to `label`: a true conjunction makes every conjunct
+    true, a false disjunction makes every disjunct false; otherwise only the (un-negated) test itself."""
+    e, n = strip_not(test)
+    if n % 2:
+        label = flip(label)
+    if isinstance(e, ast.BoolOp) and ((isinstance(e.op, ast.And) and label == "T") or (isinstance(e.op, ast.Or) and label == "F")):
+        out: list[tuple[ast.AST, str]] = []
+        for v in e.values:
+            out += cond_atoms(v, label)
+        return out
+    if isinstance(e, ast.Compare) and len(e.ops) > 1 and label == "T" and all(isinstance(c, (ast.Name, ast.Constant, ast.Attribute)) for c in e.comparators[:-1]):
+        out = []
+        left = e.left
+        for op_, c in zip(e.ops, e.comparators):
+            out.append((ast.copy_location(ast.Compare(left=left, ops=[op_], comparators=[c]), e), "T"))
+            left = c
+        return out
+    return [(e, label)]
+
+
+def expand_returns(fn: ast.AST) -> list[tuple[ast.Return, ast.AST | None, list[tuple[ast.AST, str]]]]:
+    """(return statement, returned expression, extra condition atoms) with conditional expressions in the returned
+    value split into one entry per arm."""
+    out = []
+    for r in astq.returns_of(fn):
+        for v, conds in split_ifexp(r.value):
+            atoms: list[tuple[ast.AST, str]] = []
+            for c, l in conds:
+                atoms += cond_atoms(c, l)
+            out.append((r, v, atoms))
+    return out
 
 
 def header_get_key(e: ast.AST) -> tuple[str, str] | None:
